@@ -174,7 +174,7 @@ PROPS = {
         "case_sets": ["eval"],
         "ops": ["EVAL"],
         "line_regex": r"6a6f696e",      # only pipelines that contain a join
-        "oracle_clauses": [r"c03-.*", r"c05-parse", r"unreadable-.*"],
+        "oracle_clauses": [r"c03-.*", r"c05-parse", r"c05-name-capture", r"unreadable-.*"],
         "lean_targets": ["PqlModel.Props.C03"],
         "facts": ["joinTypes", "leftJoinTableAlias", "rightJoinTableAlias"],
         "rule": "EVAL on pipelines with joins: all three kinds, bare / explicit / mixed conditions, operators before the join, "
